@@ -13,4 +13,4 @@ check('C18', title='Resend requests are answered with a complete, faithful repla
       rule='case = (persister, role, n, stored-subset mask, B, E); all distinct; non-trivial = a persister is present, at least one number is stored and B >= 1',
       assumptions=['sim runtime (virtual clock, threads never run)', 'one distinct SendingTime per message (virtual clock advanced 1 s between sends)'],
       parts=[dict(name='resend', harness='session_resend', variant='san',
-                  quick=dict(args=['n=4'], deadline=100), thorough=dict(args=['n=7'], deadline=800))])
+                  quick=dict(args=['n=5', 'n2=4'], deadline=100), thorough=dict(args=['n=7', 'n2=6'], deadline=800))])
